@@ -1743,6 +1743,10 @@ class _Date(Vector):
 		super().__init__(initial, dtype=dtype, name=name, as_row=as_row)
 
 	def _elementwise_compare(self, other, op):
+		if self._dtype is not None and self._dtype.kind is not date:
+			# Promoted in place (date -> datetime): the elements are datetimes now, and the
+			# date rules below would cut their time of day off before comparing
+			return super()._elementwise_compare(other, op)
 		other = self._check_duplicate(other)
 		if isinstance(other, Vector):
 			# Raise mismatched lengths
